@@ -107,22 +107,7 @@ def text_and_line_map_written_together(F, res, rule="D1"):
 
 def run(F, res, tier):
     text_and_line_map_written_together(F, res)
-    nm = F.fn("glas::vfs::LineMap::normalize")
-    calls = [(b, FL.short(callee(t) or callee_def(t))) for b, t in nm.calls()]
-    ret = [i for i, (b, c) in enumerate(calls) if c == "String::retain"]
-    ok = bool(ret) and ret[0] == 0 and all(nm.dominates(calls[ret[0]][0], b) for b, c in calls)
-    clos = [F.fns[c] for c in F.closures_of(nm.path)]
-    cr = False
-    for cf in clos:
-        for b, i, s in cf.stmts():
-            rv = s.get("rv")
-            if rv and rv["k"] == "bin" and rv["op"] in ("Ne", "Eq"):
-                for side in ("a", "b"):
-                    k = rv[side].get("k")
-                    if k and str(k.get("bits")) == "13" and k.get("ty") == "char":
-                        cr = rv["op"] == "Ne"
-    res.ob("D1", "normalize/strips-cr-first", "LineMap::normalize removes every '\\r' (String::retain(|c| c != '\\r')) before it computes anything",
-           ok and cr, where=nm.loc(), how="first call: %s; predicate compares with '\\r': %s" % (calls[0][1] if calls else None, cr))
+    line_ends_are_normalised_first(F, res)
     edits_use_the_current_line_map(F, res)
     # ---- D3
     cf = vfs_view(F, "change_file_content")
@@ -693,3 +678,57 @@ def closing_hands_the_document_back_to_the_disk(F, res, rule="D13"):
            "again with a text read from disk", bool(removed) and bool(same), where=h.loc(),
            how="URIs taken out of opened_files: %d; disk texts stored: %d, for the same URI: %d; forgets the file when it is gone: %s" % (
                len(removed), len(stores), len(same), bool(forgets)))
+
+
+def line_ends_are_normalised_first(F, res, rule="D1"):
+    """D1 (line ends): before LineMap::normalize measures anything (text length, bytes, line starts), the carriage returns are dealt
+    with: `\\r\\n` becomes `\\n` - the editor's text with carriage returns removed - and so that the lines are the client's, a lone
+    `\\r` becomes `\\n` too (or, as before round 7, is removed by String::retain). Whatever the spelling: every call that handles
+    '\\r' dominates String::len / as_bytes, and a `\\r\\n` pair never survives."""
+    nm = F.fn("glas::vfs::LineMap::normalize")
+    calls = [(b, t, FL.short(callee(t) or callee_def(t) or "")) for b, t in nm.calls()]
+    dn = FL.Defs(nm)
+
+    def strs(t):
+        out = []
+        for a in t["args"]:
+            k = a.get("k") if isinstance(a, dict) else None
+            if not isinstance(k, dict):
+                o = dn.origin_op(a) if isinstance(a, dict) else {}
+                k = o.get("c") if o.get("k") == "const" else None
+            if isinstance(k, dict) and "str" in k:
+                out.append(k["str"])
+            if isinstance(k, dict) and k.get("ty") == "char" and "bits" in k:
+                out.append(chr(int(k["bits"])))
+        return out
+    handlers = []
+    for b, t, c in calls:
+        last = c.rsplit("::", 1)[-1]
+        if last == "retain":
+            handlers.append((b, "retain"))
+        if last == "replace" and "\r" in "".join(strs(t)):
+            handlers.append((b, "replace(%r)" % strs(t)))
+    # retain's predicate compares with '\r'
+    cr_pred = False
+    for cf in [F.fns[c] for c in F.closures_of(nm.path)]:
+        for b, i, s_ in cf.stmts():
+            rv = s_.get("rv")
+            if rv and rv["k"] == "bin" and rv["op"] in ("Ne", "Eq"):
+                for side in ("a", "b"):
+                    k = rv[side].get("k")
+                    if k and str(k.get("bits")) == "13" and k.get("ty") == "char":
+                        cr_pred = rv["op"] == "Ne"
+    measures = [b for b, t, c in calls if c.rsplit("::", 1)[-1] in ("len", "as_bytes", "bytes", "char_indices") and c.startswith(("String::", "str::"))]
+    # the handlers may sit behind `if text.contains('\\r')`: the way round them is the edge on which there is no '\\r' at all
+    avoid = {hb for hb, _h in handlers}
+    for b, t, c in calls:
+        if c.rsplit("::", 1)[-1] == "contains" and "\r" in strs(t):
+            sw = nm.term(t["target"]) if t.get("target") is not None else None
+            if sw and sw["k"] == "switch":
+                avoid |= {x for v, x in sw["targets"] if int(v) == 0}
+    first = bool(handlers) and bool(measures) and not nm.can_reach(0, measures, avoid=avoid) and 0 not in measures
+    kinds = [h for _b, h in handlers]
+    pair = any(h.startswith("replace") and "\\r\\n" in h for h in kinds) or ("retain" in kinds and cr_pred)
+    res.ob(rule, "normalize/line-ends-first", "LineMap::normalize deals with every '\\r' before it measures the text, and no `\\r\\n` pair survives "
+           "(replaced by `\\n`, or the `\\r` removed)", first and pair, where=nm.loc(),
+           how="carriage-return handling: %s; all before String::len / as_bytes: %s" % (kinds, first))
